@@ -23,13 +23,18 @@ ASSUMPTIONS = [
     "collections.deque append/appendleft/popleft have their documented end-of-queue semantics",
     "StreamWriter.write buffers bytes in call order",
 ]
-FLOORS = {"C01.R1": 7, "C01.R2": 5, "C01.R3": 4, "C01.R4": 4, "C01.R5": 2, "C01.R6": 2, "C01.R7": 1}
+FLOORS = {"C01.R1": 7, "C01.R2": 5, "C01.R3": 4, "C01.R4": 4, "C01.R5": 2, "C01.R6": 2, "C01.R7": 1, "C01.R8": 1, "C01.R9": 1}
 
 QUEUE_READ_OK = {"len", "bool", "reversed", "list", "tuple", "iter", "enumerate"}
 MUTATORS = {"append", "appendleft", "pop", "popleft", "insert", "extend", "extendleft", "clear", "rotate", "remove", "reverse", "sort", "__setitem__", "__delitem__"}
 
 
 def run(ctx):
+    from .common import reuse
+    from . import c05
+
+    reuse(ctx, "C01.R8", [lambda c: c05.r7(c, only=("hdr", "comms.x"))], "the bytes handed to the stream are owned by that frame: encoders build fresh objects, no buffer kept on a shared codec object is rewritten while an earlier frame still waits in the transport (C05.R7)",
+          keep=lambda o: "codec-objects" in o.construct or "shared-mutable" in o.construct or o.verdict != "HOLDS")
     r1(ctx)
     r2(ctx)
     r3(ctx)
@@ -39,6 +44,9 @@ def run(ctx):
     from . import c07
     from .common import reuse
 
+    from . import c02
+
+    reuse(ctx, "C01.R9", [c02.r2], "a message lives exactly as long as its own policy says: expiry = acceptance time + retry_policy.max_lifetime, copied unchanged, tested strictly before the write (C02.R2)")
     reuse(ctx, "C01.R7", [c07.r9], "while is_connected is True a writer is stored whenever another task can run, so the drain never pops a message for which _write finds no stream (C07.R9)",
           keep=lambda o: o.construct.startswith("coherence:connected-implies-writer") or o.construct.startswith("coherence:__init__"))
 
@@ -304,7 +312,10 @@ def r4(ctx):
     others = package_calls(ctx.repo, lambda d: d.endswith("_writer.write") or d.endswith("_writer.writelines") or d.endswith("writer.write"))
     bad = [(mm, q, c) for mm, q, c in others if not (mm.name == SOCKET and q == f"{SOCK_CLS}._write")]
     ctx.check(not bad, R, "who-may-call:writer.write", m, (bad[0][2] if bad else None), "only _write writes to the stream", "; ".join(f"{mm.relpath}:{q}" for mm, q, _ in bad))
-
+    # a frame handed to the stream is never declared failed by a local timer: a timeout around drain() (TimeoutError is an
+    # OSError) would send an already written frame through the re-queue path and transmit it twice
+    timers = [(n, c) for fnm in ("_write", "_drain_message_queue") for n, c in sock_fn(ctx, fnm).calls_pred(lambda d: d in ("asyncio.timeout", "asyncio.timeout_at", "asyncio.wait_for"))]
+    ctx.check(not timers, R, "_write:no-timer-around-the-write", m, (timers[0][1] if timers else None), "no asyncio.timeout / wait_for in _write or _drain_message_queue: only the stream itself reports a failed write", f"{norm_text(timers[0][1])[:60]} at line {timers[0][1].lineno}" if timers else "")
 
 # ------------------------------------------------------------------------------------------ R5
 def r5(ctx):
